@@ -142,7 +142,8 @@ def histories(ctx, n):
             b, _ = sconnp.build_response(rng, i, head_method=(tr["method"] == b"HEAD"))
             if rng.random() < 0.2:
                 # an interim 100 response before the final one (whether or not the request asked for it, and whether its body has been sent or not)
-                b = rng.choice([b"HTTP/1.1 100 Continue\r\n\r\n", b"HTTP/1.1 100 Continue\r\nX-I: 1\r\n\r\n"]) + b
+                # (one, or several: a proxy and the origin may both answer an Expect: 100-continue)
+                b = b"".join(rng.choice([b"HTTP/1.1 100 Continue\r\n\r\n", b"HTTP/1.1 100 Continue\r\nX-I: 1\r\n\r\n"]) for _ in range(rng.choice([1, 1, 2, 3]))) + b
             rqs.append(a)
             rss.append(b)
         ops = ["O"] + interleave(rng, rqs, rss)
